@@ -3,6 +3,7 @@
 
 mod c28;
 mod c29;
+mod c30;
 mod c32;
 mod explore;
 #[allow(dead_code)]
@@ -36,9 +37,7 @@ where
         l.tick_n(scheds);
         for (k, n) in &res.outcomes {
             let cl = format!("{} => {}", label(cfg), k);
-            for _ in 0..1 {
-                l.outcome(&cl, || json!({"config": to_json(cfg), "outcome": k, "schedules_with_this_outcome": n}));
-            }
+            l.outcome_n(&cl, *n, || json!({"config": to_json(cfg), "outcome": k}));
         }
         for (key, desc, bound, trace) in &res.violations {
             l.violation(key, json!({"config": to_json(cfg), "config_label": label(cfg), "bound": bound, "what": desc, "trace": trace}));
@@ -98,8 +97,28 @@ fn replay_generic<C: Clone + Send + Sync + 'static>(ctx: &Ctx, configs: Vec<C>, 
     }
 }
 
+/// Calls `f` with every sequence of length `len` over 0..base.
+pub fn enumerate_seq(base: usize, len: usize, f: &mut dyn FnMut(&[usize])) {
+    let mut idx = vec![0usize; len];
+    loop {
+        f(&idx);
+        let mut k = len;
+        loop {
+            if k == 0 {
+                return;
+            }
+            k -= 1;
+            idx[k] += 1;
+            if idx[k] < base {
+                break;
+            }
+            idx[k] = 0;
+        }
+    }
+}
+
 fn main() {
-    let ctx = Ctx::from_args(&["C28", "C29", "C32"]);
+    let ctx = Ctx::from_args(&["C28", "C29", "C30", "C32"]);
     match ctx.id.as_str() {
         "C29" => {
             let cfgs = c29::configs(ctx.quick());
@@ -148,6 +167,16 @@ fn main() {
             ctx.finish(
                 "model_checking",
                 "every schedule with at most k preemptions (k iterated from 0) of 1-2 plain queriers, 0-2 TSIG-signing queriers and a swapper (set_catalog / set_tsig_keys to generation 2, then its own query) on the mirrored Server; oracle: every response carries one single generation in all sections, requests started after a swap returned see the new data, a signed exchange is verified and signed under one secret. states = choice points, transitions = scheduling steps, traces_validated_against_impl = schedules executed",
+                true,
+            );
+        }
+        "C30" => {
+            c30::run(&ctx);
+            ctx.assume("scripted sockets stand in for the kernel: real TCP segmentation, recvmsg ancillary data / local-address selection (unix_udp_localaddr.rs), the accept loops and Tokio's multi-thread scheduler are not explored");
+            ctx.assume("at most one environment deviation (EINTR, timeout, EOF, error, Pending, stall, short/failing/interrupted write, shutdown at a response) per run, on top of the segmentation");
+            ctx.finish(
+                "model_checking",
+                "every batch of <= 3 requests from a 7-entry menu (valid, EDNS, FORMERR-answered, NXDOMAIN, response-less QR / empty / short) x every subset (size <= 2 quick, <= 3 thorough, plus one-octet-at-a-time) of cut points within 3 octets of each length prefix / message boundary x every single environment deviation at every position, for the blocking and the Tokio connection handlers of the mirrored source over scripted sockets; UDP: every batch of <= 3 datagrams x deviations for run_udp_worker / run_udp_receiver. Oracle: output stream equals the concatenation of length-prefixed handle_message results for each request alone, in order, up to the first response-less request (or up to what the deviation allows); each datagram gets at most one reply, to its source from the address it was sent to, no larger than the payload size. states = runs (histories), transitions = socket events",
                 true,
             );
         }
